@@ -8,6 +8,16 @@ compares: exception class and result shape of every call, WHICH earlier call ret
 object (`is`), the keys left in every object's deques and its _csr/_csc memo, and that every cached
 result equals the uncached twin's (shape, fill, coords, data / indptr, indices, data).
 
+The histories also contain copies of cache-enabled arrays — COO(x) (shares x's memo), COO(x, fill_value=v)
+(a fresh memo: the site whose absence was the defect repaired by d7a2c41; inherits _csr/_csc behind the
+fill-value guard), x.copy() / x.copy(deep=False) (through __setstate__: no cache), astype(copy=False) /
+asformat("coo") (return self) — and directed scenarios around them.
+
+Campaign part 1b (free-form twins): sequences over a much wider operation set (sort, argmax/argmin, reductions,
+out= updates followed by enable_caching(), element-wise, indexing, conversions, copies ...) executed on a
+cache-enabled array and on a twin without caching with identical decisions; every step's outcome (exception
+class or value digest) must agree.  No model prediction there: it is the property itself, judged in Coq.
+
 Campaign part 2 (operands): a broad list of public operations x formats (COO, GCXS with various
 compressed axes, DOK) x random small operands, including operands that share buffers with each other
 (x and x.T, reshape/squeeze views, GCXS 2-d transposes, COO built on caller-owned arrays).  Every
@@ -37,8 +47,12 @@ TRUSTED_BASE = [
     "Writes performed inside package functions OUTSIDE the five anchored files (e.g. _umath.elemwise) are not "
     "propagated to their callers (counted in the report); they are covered by the operand-snapshot campaign only",
     "Model/Cache.v as a transcription of the memo code (deque semantics of collections.deque(maxlen), attribute "
-    "memo of tocsr/tocsc); the pre-lookup phases of transpose/reshape in Corr/C11Judge.v (axis normalisation, -1 "
+    "memo of tocsr/tocsc, the copy constructor sharing or resetting the cache cell as the generated copy site says, "
+    "copy()/deepcopy going through __setstate__ which disables caching); the pre-lookup phases of transpose/reshape in Corr/C11Judge.v (axis normalisation, -1 "
     "inference) are validated by correspondence only",
+    "cache_transparent's hypothesis mk_csr (refill v f) = mk_csr v: COO._tocsr builds the scipy matrix from coords "
+    "and data only (validated by the copy-with-fill histories: an inherited _csr/_csc is served only behind "
+    "check_zero_fill_value)",
     "the theorem cache_transparent assumes the memoised computations are pure functions of the receiver's value "
     "and of the key (nobody mutates a cached object: part 2 of this property, and the docstring of enable_caching)",
     "correspondence harness tools/props/c11.py, tools/vlib.py; equality of results is equality of the bytes of "
@@ -595,7 +609,7 @@ HIST_CODES = {
 
 def campaign_hist(build, tier, seed, report, budget):
     rng = random.Random(seed * 7919 + 11)
-    ncases, maxlen = (160, 30) if tier == "quick" else (400, 200)
+    ncases, maxlen = (140, 30) if tier == "quick" else (400, 200)
     ncases *= budget
     cases, aux = [], []
     tags = {}
@@ -663,6 +677,12 @@ FREE_PREFIXES = [
                          ("sort_ax0_desc", "root"), ("T", "root"), ("argmin_last", "root")]),
     ("memo-then-out-update", [("csr", "root"), ("csc", "root"), ("T", "root"), ("neg_out", "root"), ("csr", "root"),
                               ("csc", "root"), ("T", "root"), ("sum", "root")]),
+    # out= hands the target the attributes of an uncached result; the user switches caching on again
+    ("memo-out-update-recache", [("csr", "root"), ("csc", "root"), ("mul2_out", "root"), ("recache", "root"),
+                                 ("csr", "root"), ("csc", "root"), ("T", "root"), ("neg_out", "root"),
+                                 ("recache", "root"), ("csc", "root"), ("csr", "root"), ("flat", "root")]),
+    ("csr-only-out-update-recache", [("csr", "root"), ("add_self_out", "root"), ("recache", "root"), ("csc", "root"),
+                                     ("csr", "root"), ("T", "root")]),
     ("copy-with-fill-after-csc", [("csr", "root"), ("csc", "root"), ("cpfill5", "root"), ("csc", "last"),
                                   ("csr", "last"), ("T", "last"), ("unique", "last")]),
     ("copy-with-fill-after-T", [("T", "root"), ("flat", "root"), ("cpfill7", "root"), ("T", "last"),
@@ -718,6 +738,8 @@ def _free_ops():
         "concat": lambda t, r: sparse.concatenate([t, t], axis=0), "stack": lambda t, r: sparse.stack([t, t]),
         "triu": lambda t, r: sparse.triu(t), "diag": lambda t, r: sparse.diagonal(t),
         "bcast": lambda t, r: sparse.broadcast_to(t, (2,) + tuple(t.shape)),
+        # enable_caching() on the cache-enabled run only (the twin never caches): must change no later result
+        "recache": None,
     }
 
 
@@ -756,7 +778,10 @@ def impl_free(case):
             t = pool[ti]
             try:
                 with np.errstate(all="ignore"):
-                    o = ops[name](t, r)
+                    if name == "recache":
+                        o = t.enable_caching() if cache else None
+                    else:
+                        o = ops[name](t, r)
                 rec.append([name, ti, 0, _free_value(o)])
                 if isinstance(o, sparse.COO) and o is not t and 1 <= o.ndim <= 4 and o.size <= 400:
                     pool.append(o)
@@ -770,13 +795,13 @@ def impl_free(case):
 
 def free_cases(tier, seed, budget):
     rng = random.Random(seed * 31337 + 3)
-    n = (120 if tier == "quick" else 500) * budget
+    n = (80 if tier == "quick" else 500) * budget
     cases = []
     shapes = [[2, 3], [3, 3], [3, 2], [2, 2, 3], [4], [3, 1, 2], [2, 3, 2], [5, 2]]
     k = 0
     for pname, steps in FREE_PREFIXES:           # every scripted prefix on several shapes / patterns
-        for shape in shapes[:6]:
-            for nnz in (3, 6, 40):
+        for shape in (shapes[:4] if tier == "quick" else shapes[:6]):
+            for nnz in ((3, 40) if tier == "quick" else (3, 6, 40)):
                 cases.append({"shape": shape, "fill": 0, "seed": rng.randrange(1 << 30), "nnz": nnz, "neg": k % 2 == 0,
                               "n": len(steps) + 4, "prefix": steps, "prefix_name": pname})
                 k += 1
